@@ -885,7 +885,10 @@ func (f *framer) readTypeInfo() TypeInfo {
 
 	if simple.typ == TypeCustom {
 		simple.custom = f.readString()
-		if cassType := getApacheCassandraType(simple.custom); cassType != TypeCustom {
+		switch cassType := getApacheCassandraType(simple.custom); cassType {
+		case TypeCustom, TypeMap, TypeList, TypeSet, TypeTuple:
+			// a class name carries no element types, nothing more follows it in the frame
+		default:
 			simple.typ = cassType
 		}
 	}
